@@ -93,6 +93,9 @@ func h1Main(env *Env, c *H1Cfg, st *h1State) {
 
 func h1OneRun(env *Env, c *H1Cfg, st *h1State, runIdx int) {
 	g := &runGT{Scenario: fmt.Sprintf("scen%d", runIdx), compInv: make([]int, len(c.Prog.Components))}
+	if c.SameScenario {
+		g.Scenario = "scen0"
+	}
 	rec := NewRecorder(env.Sim)
 	rec.SlowNs = c.SlowOutputNs
 	hr := &h1Run{GT: g, Rec: rec}
